@@ -128,7 +128,10 @@ func scalarField(name string, num int32, ty string) *descriptor.FieldDescriptorP
 }
 
 // applyType sets type / type_name of fd for abstract type ty.
-func applyType(fd *descriptor.FieldDescriptorProto, pkg string, f absd.Fld) {
+func applyType(fd *descriptor.FieldDescriptorProto, pkg string, f absd.Fld, nest map[string]string) {
+	if n, ok := nest[f.Ref]; ok && (f.Ty == "msg" || f.Ty == "bogus") {
+		f.Ref = n // Parent.Name
+	}
 	switch f.Ty {
 	case "enum":
 		t := descriptor.FieldDescriptorProto_TYPE_ENUM
@@ -160,7 +163,7 @@ func applyType(fd *descriptor.FieldDescriptorProto, pkg string, f absd.Fld) {
 	}
 }
 
-func buildMessage(pkg string, mi int, m absd.Msg, sci *descriptor.SourceCodeInfo) *descriptor.DescriptorProto {
+func buildMessage(pkg string, mi int, m absd.Msg, sci *descriptor.SourceCodeInfo, nest map[string]string) *descriptor.DescriptorProto {
 	dp := &descriptor.DescriptorProto{Name: proto.String(m.Name)}
 	for _, o := range m.Oneofs {
 		dp.OneofDecl = append(dp.OneofDecl, &descriptor.OneofDescriptorProto{Name: proto.String(o)})
@@ -191,10 +194,10 @@ func buildMessage(pkg string, mi int, m absd.Msg, sci *descriptor.SourceCodeInfo
 		hasOpts := false
 		switch f.Card {
 		case "one":
-			applyType(fd, pkg, f)
+			applyType(fd, pkg, f, nest)
 		case "rep":
 			fd.Label = &rep
-			applyType(fd, pkg, f)
+			applyType(fd, pkg, f, nest)
 		case "map":
 			fd.Label = &rep
 			en := entryName(f.Name)
@@ -203,7 +206,7 @@ func buildMessage(pkg string, mi int, m absd.Msg, sci *descriptor.SourceCodeInfo
 			fd.TypeName = proto.String("." + pkg + "." + m.Name + "." + en)
 			key := scalarField("key", 1, f.MapKey)
 			val := &descriptor.FieldDescriptorProto{Name: proto.String("value"), Number: proto.Int32(2), Label: &opt, JsonName: proto.String("value")}
-			applyType(val, pkg, f)
+			applyType(val, pkg, f, nest)
 			dp.NestedType = append(dp.NestedType, &descriptor.DescriptorProto{
 				Name: proto.String(en), Field: []*descriptor.FieldDescriptorProto{key, val},
 				Options: &descriptor.MessageOptions{MapEntry: proto.Bool(true)}})
@@ -303,6 +306,21 @@ func protoPackage(d absd.Desc) string {
 
 // buildFileEnum: a second file of the same proto package must not declare the fixed enum again.
 func buildFileEnum(name, pkg, protoPkg, goImport string, msgs []absd.Msg, withGogo, withEnum bool) *descriptor.FileDescriptorProto {
+	return buildFileNested(name, pkg, protoPkg, goImport, msgs, withGogo, withEnum, nil)
+}
+
+// buildFileNested: ... with some of the messages declared inside others (absd.Desc.Nested)
+func buildFileNested(name, pkg, protoPkg, goImport string, msgs []absd.Msg, withGogo, withEnum bool, nested []absd.KV) *descriptor.FileDescriptorProto {
+	nest := map[string]string{}   // abstract name -> Parent.Name (as in type names)
+	parent := map[string]string{} // abstract name -> abstract name of the parent
+	simple := map[string]string{} // abstract name -> declared simple name
+	for _, kv := range nested {
+		p, n := kv.V, kv.K
+		if i := strings.IndexByte(kv.V, ':'); i >= 0 {
+			p, n = kv.V[:i], kv.V[i+1:]
+		}
+		nest[kv.K], parent[kv.K], simple[kv.K] = p+"."+n, p, n
+	}
 	fd := &descriptor.FileDescriptorProto{
 		Name:    proto.String(name),
 		Package: proto.String(protoPkg),
@@ -330,8 +348,21 @@ func buildFileEnum(name, pkg, protoPkg, goImport string, msgs []absd.Msg, withGo
 		fd.Dependency = append(fd.Dependency, "google/protobuf/duration.proto")
 	}
 	sci := &descriptor.SourceCodeInfo{}
-	for i, m := range msgs {
-		fd.MessageType = append(fd.MessageType, buildMessage(protoPkg, i, m, sci))
+	top := map[string]*descriptor.DescriptorProto{}
+	for _, m := range msgs {
+		if _, ok := parent[m.Name]; ok {
+			continue
+		}
+		dp := buildMessage(protoPkg, len(fd.MessageType), m, sci, nest)
+		top[m.Name] = dp
+		fd.MessageType = append(fd.MessageType, dp)
+	}
+	for _, m := range msgs {
+		if p, ok := parent[m.Name]; ok {
+			dp := buildMessage(protoPkg, 0, m, nil, nest)
+			dp.Name = proto.String(simple[m.Name])
+			top[p].NestedType = append(top[p].NestedType, dp)
+		}
 	}
 	if len(sci.Location) > 0 {
 		// file-level declarations carry comments of their own (paths 12 = syntax, 2 = package)
@@ -387,7 +418,7 @@ func Request(d absd.Desc, l Layout) *plugin.CodeGeneratorRequest {
 		}
 		req.ProtoFile = append(req.ProtoFile, buildFile(dep.Pkg+".proto", dep.Pkg, l.DepImportBase+"/"+dep.Pkg, dep.Msgs, true))
 	}
-	f := buildFileEnum(d.Pkg+".proto", d.Pkg, protoPackage(d), l.StructImport, d.Msgs, true, true)
+	f := buildFileNested(d.Pkg+".proto", d.Pkg, protoPackage(d), l.StructImport, d.Msgs, true, true, d.Nested)
 	f.Dependency = append(f.Dependency, shared...)
 	req.ProtoFile = append(req.ProtoFile, f)
 	req.FileToGenerate = []string{d.Pkg + ".proto"}
